@@ -98,7 +98,8 @@ StringDictionaryRPHTFC::StringDictionaryRPHTFC(IteratorDictString *it,
     pbeg++;
     bucket++;
 
-    if ((ptrpdict + (size_t)(bucketsize * maxlength)) > reservedInts)
+    // Each remaining byte of the bucket yields, at most, two symbols
+    while ((ptrpdict + 2 * (pend - pbeg) + 1) > reservedInts)
       reservedInts = Reallocate(&rpdict, reservedInts);
 
     // Stores the last position with 0 to avoid confusions with 0 values
@@ -140,7 +141,9 @@ StringDictionaryRPHTFC::StringDictionaryRPHTFC(IteratorDictString *it,
   bitsrp = rp->getBits();
 
   std::vector<size_t> intStrings;              // Encoded internal strings
-  std::vector<size_t> beginnings(buckets + 1); // Bucket beginnings
+  // Bucket beginnings (plus the end of the last bucket, which is an extra
+  // entry when the last bucket is full)
+  std::vector<size_t> beginnings(buckets + 2);
 
   size_t ibytes = 0;
   uint io = 0, strings = 0;
@@ -233,7 +236,7 @@ StringDictionaryRPHTFC::StringDictionaryRPHTFC(IteratorDictString *it,
       // Updating the ptr value to the beginning of the corresponding internal
       // string
       ptrB = beginnings[bucket - 1];
-      ptrE = beginnings[bucket] - 1;
+      ptrE = beginnings[bucket];
 
       // Adding an ending decodeable string  (if required)
       if (textSubstr.size() > 0) {
@@ -279,7 +282,7 @@ StringDictionaryRPHTFC::StringDictionaryRPHTFC(IteratorDictString *it,
       offset = 0;
       textStrings[bytesStrings] = 0;
 
-      for (; ptrB <= ptrE; ptrB++)
+      for (; ptrB < ptrE; ptrB++)
         bytesStrings += encodeSymbol(intStrings[ptrB],
                                      &(textStrings[bytesStrings]), &offset);
 
